@@ -1132,7 +1132,14 @@ private:
 		size_t newLogBucketCount = pvGetNewLogBucketCount();
 		size_t newCapacity = hashTraits.CalcCapacity(size_t{1} << newLogBucketCount,
 			bucketMaxItemCount);
-		MOMO_CHECK(newCapacity > mCount);
+		while (newCapacity <= mCount)	// overloaded after a refused growth
+		{
+			++newLogBucketCount;
+			size_t nextCapacity = hashTraits.CalcCapacity(size_t{1} << newLogBucketCount,
+				bucketMaxItemCount);
+			MOMO_CHECK(nextCapacity > newCapacity);
+			newCapacity = nextCapacity;
+		}
 		bool hasBuckets = (mBuckets != nullptr);
 		Buckets* newBuckets;
 		try
